@@ -137,7 +137,21 @@ def run(ck, P):
     ck.rule("C01.3-COUNTER", "R-PAIR: stats.running_modules is written only by start (++ next to the RUNNING store, no call in "
             "between) and stop (-- exactly on paths where the module was RUNNING, before the state store)", floor=3)
     writers = list(P.writes_to_field("ctx_stats_t", "running_modules"))
+    crec = "ctx_stats_t"
+    if not writers:
+        # the counter moved to another record of the context: found by its name
+        for rn_, r_ in P.records.items():
+            if any(fd_["name"] == "running_modules" for fd_ in r_.get("fields", [])):
+                ws_ = list(P.writes_to_field(rn_, "running_modules"))
+                if ws_:
+                    writers, crec = ws_, rn_
+                    break
     ck.need(writers, "no writer of ctx_stats_t.running_modules found")
+    cfd = [fd_ for fd_ in P.record(crec)["fields"] if fd_["name"] == "running_modules"]
+    ck.ob("C01.3-COUNTER", "Lib/core:%s.running_modules width" % crec, bool(cfd) and cfd[0].get("size", 0) >= 8,
+          "the counter of RUNNING modules is %d bytes wide" % (cfd[0].get("size", 0) if cfd else 0) + ("" if cfd and cfd[0].get("size", 0) >= 8 else
+          ": it wraps after %d running modules — the reported count no longer equals the number of RUNNING modules, and at a multiple of that the loop "
+          "believes nothing runs and returns" % (1 << (8 * (cfd[0].get("size", 0) if cfd else 0)))), nontrivial=False)
     for ev in writers:
         fn = ev.fn
         op = ev.e.get("op")
